@@ -84,21 +84,20 @@ func (b *payPerInterval) OnUpdate(node store.Node, peers []store.Node) (store.Ba
 
 	total := new(big.Int)
 	for _, peer := range peers {
-		b.Store.AddNodeBalance(peer.ID, credit)
+		if err := b.Store.AddNodeBalance(peer.ID, credit); err != nil {
+			// Only bill the client for credit that a peer actually received.
+			continue
+		}
 		total.Add(total, credit)
 	}
-
-	// If this comparison is in the wrong place, it could make the pool
-	// insolvent. On the other hand, if we compare too early, then the client
-	// could get into a loop where it disconnects due to low balance, connects
-	// successfully, repeat.
-	if b.MinBalance != nil && b.MinBalance.Cmp(total) > 0 {
-		return store.Balance{}, LowBalanceError{
-			CurrentBalance: total,
-			MinBalance:     b.MinBalance,
-		}
+	if total.Cmp(new(big.Int)) == 0 {
+		// Nothing was billed.
+		return b.Store.GetNodeBalance(node.ID)
 	}
 
+	// Whatever was credited to the peers must be debited from the client, also
+	// when the client turns out to be below the minimum balance, otherwise the
+	// pool becomes insolvent.
 	if err := b.Store.AddNodeBalance(node.ID, new(big.Int).Neg(total)); err != nil {
 		return store.Balance{}, err
 	}
@@ -107,5 +106,18 @@ func (b *payPerInterval) OnUpdate(node store.Node, peers []store.Node) (store.Ba
 		return balance, err
 	}
 
-	return b.Store.GetNodeBalance(node.ID)
+	// Compare the minimum with the client's balance after this charge, same as
+	// OnClient does, so that a client which is cut off here is also refused
+	// when it tries to reconnect.
+	if b.MinBalance != nil {
+		current := new(big.Int).Add(&balance.Credit, &balance.Deposit)
+		if b.MinBalance.Cmp(current) > 0 {
+			return balance, LowBalanceError{
+				CurrentBalance: current,
+				MinBalance:     b.MinBalance,
+			}
+		}
+	}
+
+	return balance, nil
 }
